@@ -221,7 +221,7 @@ def ipv6_address_unwrap(ipv6_address: str) -> str:
     """
     try:
         addr_bytes = socket.inet_pton(socket.AF_INET6, ipv6_address)
-    except OSError:
+    except (OSError, ValueError):
         # This happens when the string does not represent a valid IPv6 address.
         return ipv6_address
     if addr_bytes.startswith(
